@@ -88,6 +88,13 @@ StrLits_bytes ==
     \cup {Str1(<<Ch(120), EscX(HexOf(b)), EscX(HexOf(c))>>) : b \in {1, 127}, c \in {2, 255}}
     \cup {Str1(<<Esc(e)>> \o f) : e \in SimpleEscapes, f \in Follows}
     \cup {Str1(<<EscU(d)>> \o f) : d \in UEscapes, f \in Follows}
+(* ---- long literals: an escape sequence next to every column where a writer of source text might wrap a line ---- *)
+Pad(n) == [i \in 1..n |-> Ch(97 + (i % 23))]
+WrapWidths == {64, 72, 76, 80, 100, 120, 128, 144, 256}
+LongLens == UNION {(w - 4)..(w + 1) : w \in WrapWidths}
+LongEscapes == {Esc("n"), Esc("\\"), Esc("\""), EscX(<<10, 3>>), EscU(<<2, 0, 10, 12>>), Raw(<<226, 130, 172>>)}
+StrLits_long == {Str1(Pad(n) \o <<e>> \o f) : n \in LongLens, e \in LongEscapes, f \in {<<>>, <<Ch(122), Ch(122)>>}}
+                  \cup {[pieces |-> <<Piece(Pad(n)), Piece(<<Esc("n")>> \o Pad(n))>>] : n \in {70, 71, 72, 73}}
 CharLits_bytes == {CharLit(EscX(HexOf(b))) : b \in SpecialBytes} \cup {CharLit(Esc(e)) : e \in SimpleEscapes}
                     \cup {CharLit([e |-> "x", d |-> HexOf(b), up |-> TRUE]) : b \in {10, 255}}
 F_a == Piece(<<Ch(97), Ch(46), Ch(112), Ch(110)>>)                                        \* "a.pn"
